@@ -8,6 +8,7 @@ import traceback
 from decimal import Decimal
 from common import *
 import c16_extract
+import c16_fmt
 
 chk = Check('C16')
 chk.extra['rule'] = ('random systems (1-5 molecules, arbitrary integer node keys, atom ids that reorder the nodes, '
@@ -30,7 +31,7 @@ try:
 except Exception as exc:  # the tie is broken: keep the committed layout, search for a failing input
     extract_err = '%s: %s' % (type(exc).__name__, exc)
 chk.lean(['VermouthProps.C16', 'VermouthProps.C16Tables', 'VermouthProps.C16File', 'VermouthProps.C16Gro',
-          'VermouthProps.C16Conect'],
+          'VermouthProps.C16Conect', 'VermouthProps.C16Format'],
          'driver_c16', generated=gen)
 if extract_err:
     chk.broken.append(('extract:C16Layout', extract_err))
@@ -692,11 +693,34 @@ for recs, cts, bey, err in results:
         chk.broken.append(err)
 records, beyond = all_records, all_beyond
 
+# ----------------------------------------------------------------------------
+# TruncFormatter.format_field in general: random format specs x values (strings, integers, decimals on the grid
+# of the precision, which cross as integers) against C16.formatField; oracle in terms of python's format()
+# ----------------------------------------------------------------------------
+from vermouth.truncating_formatter import TruncFormatter
+_formatter = TruncFormatter()
+for cid, spec, val, prec in c16_fmt.stream(chk.rng('fmtfield'), 40000 if chk.thorough else 5000):
+    value = c16_fmt.py_value(val, prec)
+    status, res = c16_fmt.run_real(_formatter, value, spec)
+    impl = 'ok ' + enc(res) if status == 'ok' else 'err ' + res
+    errs = c16_fmt.oracle(value, spec, status, res)
+    base = spec[:-1] if spec.endswith('t') else spec
+    overflow = status == 'ok' and spec.endswith('t') and not base.endswith('t') and \
+        any(ch.isdigit() and ch != '0' for ch in base.split('.')[0]) and len(str(val[1])) >= len(res)
+    chk.count('fmt_' + ('ok_t' if spec.endswith('t') else 'ok') if status == 'ok' else 'fmt_' + res)
+    if overflow:
+        chk.count('fmt_value_at_or_beyond_width')
+    records.append((cid, line('fmtfield', spec, c16_fmt.enc_val(val)), impl, errs, overflow or status != 'ok', None,
+                    True))
+
 lines = [r[1] for r in records]
 models = chk.drv.ask(lines) if chk.lean_ok else [None] * len(lines)
 for (cid, ln, impl, errs, nontriv, finding, use), mo in zip(records, models):
     if cid in beyond and mo == 'err unmodelled':
         mo = None     # reader behaviour outside the model (merging molecules): oracle-only case
+    if cid.startswith('fmt-') and mo == 'err unmodelled':
+        mo = None     # python formatting outside the model (',' grouping, types b c o x n e g %, '_', 'z')
+        chk.count('fmt_model_unmodelled')
     chk.case(cid, ln, impl, mo, errs, nontriv, finding)
 if not any('F-C16-2' == k for k in known):
     chk.notes.append('atom names without an ASCII letter (and, for PDB, without element) make read_pdb/read_gro raise '
